@@ -585,8 +585,11 @@ impl<F: MatchFunc> Aligner<F> {
                     tb.set_i_bits(self.traceback.get(i - 1, j).get_s_bits());
                 }
                 if j == n {
-                    let clip_score =
-                        self.Sn[i - 1] + self.scoring.gap_open + self.scoring.gap_extend;
+                    // A suffix clip (y) consumes nothing of x: if the clipped path ends with an
+                    // insertion, this insertion continues that gap and must not open a new one
+                    let clip_score = self.Sn[i - 1]
+                        + self.gap_open_after_yclip(i - 1, n)
+                        + self.scoring.gap_extend;
                     if clip_score > best_i_score {
                         best_i_score = clip_score;
                         tb.set_i_bits(TB_YCLIP_SUFFIX);
@@ -594,7 +597,14 @@ impl<F: MatchFunc> Aligner<F> {
                 }
 
                 let d_score = self.D[prev][i] + self.scoring.gap_extend;
-                let s_score = self.S[prev][i] + self.scoring.gap_open + self.scoring.gap_extend;
+                // Likewise for a suffix clip (x) recorded in row m of the previous column
+                let s_score = self.S[prev][i]
+                    + if i == m {
+                        self.gap_open_after_xclip(m, j - 1)
+                    } else {
+                        self.scoring.gap_open
+                    }
+                    + self.scoring.gap_extend;
                 let best_d_score;
                 if d_score > s_score {
                     best_d_score = d_score;
@@ -703,7 +713,12 @@ impl<F: MatchFunc> Aligner<F> {
         for i in max(1, self.band.ranges[n].start)..self.band.ranges[n].end {
             let j = n;
             let curr = j % 2;
-            let s_score = self.S[curr][i - 1] + self.scoring.gap_open + self.scoring.gap_extend;
+            let gap_open = if self.traceback.get(i - 1, j).get_s_bits() == TB_YCLIP_SUFFIX {
+                self.gap_open_after_yclip(i - 1, n)
+            } else {
+                self.scoring.gap_open
+            };
+            let s_score = self.S[curr][i - 1] + gap_open + self.scoring.gap_extend;
             if s_score > self.I[curr][i] {
                 self.I[curr][i] = s_score;
                 let s_bit = self.traceback.get(i - 1, j).get_s_bits();
@@ -863,6 +878,31 @@ impl<F: MatchFunc> Aligner<F> {
             xlen: m,
             operations,
             mode: AlignmentMode::Custom,
+        }
+    }
+
+    /// Gap open penalty of an insertion that follows the suffix clip (y) tracked in `Sn[i]`:
+    /// nothing if the clipped path itself ends with an insertion (the clip does not interrupt
+    /// the gap in the returned operations), `gap_open` otherwise.
+    #[inline(always)]
+    fn gap_open_after_yclip(&self, i: usize, n: usize) -> i32 {
+        if self.traceback.get(i, n - self.Ly[i]).get_s_bits() == TB_INS {
+            0
+        } else {
+            self.scoring.gap_open
+        }
+    }
+
+    /// Gap open penalty of a deletion that follows the cell `(m, j)`: nothing if that cell is a
+    /// suffix clip (x) of a path that ends with a deletion, `gap_open` otherwise.
+    #[inline(always)]
+    fn gap_open_after_xclip(&self, m: usize, j: usize) -> i32 {
+        if self.traceback.get(m, j).get_s_bits() == TB_XCLIP_SUFFIX
+            && self.traceback.get(m - self.Lx[j], j).get_s_bits() == TB_DEL
+        {
+            0
+        } else {
+            self.scoring.gap_open
         }
     }
 
